@@ -31,11 +31,47 @@ class Boom(Exception):
 
 
 class FakeFuture:
+    """The part of concurrent.futures.Future a consumer of as_completed() may use: by the time a future is yielded it
+    is done, so result() returns or raises at once and exception() returns the exception or None."""
     def __init__(self, fn, args):
         self.fn, self.args = fn, args
+        self._ran = False
+        self._value = self._exc = None
+
+    def _run(self):
+        if not self._ran:
+            self._ran = True
+            try:
+                self._value = self.fn(*self.args)
+            except BaseException as e:   # noqa
+                if not isinstance(e, Exception):
+                    raise
+                self._exc = e
 
     def result(self, timeout=None):
-        return self.fn(*self.args)
+        self._run()
+        if self._exc is not None:
+            raise self._exc
+        return self._value
+
+    def exception(self, timeout=None):
+        self._run()
+        return self._exc
+
+    def done(self):
+        return True
+
+    def cancelled(self):
+        return False
+
+    def running(self):
+        return False
+
+    def cancel(self):
+        return False
+
+    def add_done_callback(self, fn):
+        fn(self)
 
 
 class FakeExecutor(Executor):
